@@ -166,6 +166,37 @@ def _second03(kv):
     return kv[1]
 
 
+def frozen_copy_keys(ld, r, count):
+    """a frozen copy of a per-epoch reshuffle (explicit, or behind a mapped stage) has keys(): they stay in the order of its iteration,
+    items() pairs them with their own examples and ds[key] / ds[i] agree - also after the SOURCE went through further epochs and
+    further freezes"""
+    import numpy as np
+    fails = []
+    for _ in range(count):
+        n = r.randint(2, 7)
+        own = {f'key_{i}': 10 * i for i in range(n)}
+        rs = ld.new(own).shuffle(True, rng=np.random.RandomState(r.randint(0, 10 ** 6)))
+        top = r.choice(['plain', 'map', 'slice'])
+        src = rs if top == 'plain' else rs.map(_same03) if top == 'map' else rs
+        try:
+            fz = src.copy(freeze=True)
+            if top == 'slice':
+                fz = fz[::1]
+            k0 = list(fz.keys())
+            for _e in range(r.randint(1, 3)):
+                list(src)
+                src.copy(freeze=True)
+            k1, it, vals = list(fz.keys()), list(fz.items()), list(fz)
+            byi = [fz[i] for i in range(n)]
+            byk = [fz[k] for k in k1]
+            ok = k1 == k0 and [k for k, _v in it] == k1 and all(own[k] == v for k, v in it) and vals == [v for _k, v in it] and byi == vals and byk == vals
+            if not ok:
+                fails.append(f'frozen copy ({top}) of a reshuffle over {own}: keys() {k0} before and {k1} after the source went on; items() {it}; iteration {vals}; by position {byi}; by key {byk} - they must all describe one order')
+        except Exception as e:
+            fails.append(f'frozen copy ({top}) of a keyed reshuffle raised {type(e).__name__}: {e}'[:300])
+    return fails
+
+
 def key_source_history(ld, r, count):
     """dict-backed sources of every immutability mode built from a plain dict, a defaultdict, a Counter or an OrderedDict: keys(),
     items(), len and key lookup stay aligned - an absent key is refused (also by a source mapping that would invent a value for it),
@@ -234,6 +265,9 @@ def run(tier):
     for msg in multi_part_key_lookup(common.import_impl(), common.rng_for('C03parts'), cnt)[:5]:
         res['failures'].append(dict(kind='program', summary=msg[:800]))
     res['coverage']['multi_part_key_lookups'] = cnt
+    for msg in frozen_copy_keys(common.import_impl(), common.rng_for('C03frozen'), cnt)[:5]:
+        res['failures'].append(dict(kind='program', summary=msg[:800]))
+    res['coverage']['frozen_copy_key_histories'] = cnt
     return res
 
 
